@@ -11,6 +11,8 @@ import (
 	"math/bits"
 )
 
+func (ex *Exec) wrapU(t *Term, ii intInfo) *Term { return ex.fromUnsigned(t, ii) }
+
 func (ex *Exec) modC(t *Term, m *big.Int) *Term {
 	_, r := ex.divmod(t, m)
 	return r
@@ -134,6 +136,19 @@ func (ex *Exec) andOp(a, b *Term, ii intInfo) *Term {
 		if m.Cmp(new(big.Int).Sub(pow2(ii.bits), bigOne)) == 0 {
 			return b
 		}
+		// only the mask bits below the bit length of the operand matter
+		if ub.lo != nil && ub.hi != nil && ub.lo.Sign() >= 0 {
+			k := uint(ub.hi.BitLen())
+			if k < ii.bits {
+				low := new(big.Int).Mod(m, pow2(k))
+				if low.Cmp(new(big.Int).Sub(pow2(k), bigOne)) == 0 {
+					return b
+				}
+				if low.Cmp(m) != 0 {
+					return ex.andOp(ex.fromUnsigned(ts.Int(low), ii), b, ii)
+				}
+			}
+		}
 		if j, k, ok := isContigMask(m); ok {
 			x := ub
 			if j > 0 {
@@ -185,6 +200,17 @@ func (ex *Exec) orOp(a, b *Term, ii intInfo) *Term {
 	}
 	if r, ok := ex.liftIte(a, b, ii, ex.orOp); ok {
 		return r
+	}
+	// x | c for a constant c:  (x &^ c) + c
+	if !ii.signed || (a.lo != nil && a.lo.Sign() >= 0 && b.lo != nil && b.lo.Sign() >= 0) {
+		for k := 0; k < 2; k++ {
+			if b.IsConst() && !a.IsConst() {
+				all := new(big.Int).Sub(pow2(ii.bits), bigOne)
+				nc := ts.Int(new(big.Int).Xor(b.ival, all))
+				return ex.wrapU(ts.Add(ex.andOp(a, nc, intInfo{bits: ii.bits, lo: bigZero, hi: all}), b), ii)
+			}
+			a, b = b, a
+		}
 	}
 	// x | -x  (sign mask idiom): zero iff x == 0, negative otherwise
 	if ii.signed && ii.bits == 64 {
@@ -459,10 +485,20 @@ func (ex *Exec) divmod(s *Term, m *big.Int) (*Term, *Term) {
 		}
 		return ts.Int64(0), s
 	}
-	if s.op == "ite" && (s.args[1].IsConst() || s.args[2].IsConst()) {
+	if s.op == "ite" && (s.args[1].IsConst() || s.args[2].IsConst() || (s.args[1].op != "ite" && s.args[2].op != "ite")) {
 		q1, r1 := ex.divmod(s.args[1], m)
 		q2, r2 := ex.divmod(s.args[2], m)
 		return ts.Ite(s.args[0], q1, q2), ts.Ite(s.args[0], r1, r2)
+	}
+	// term-level simplification first: if both quotient and remainder reduce to something that is not
+	// a div/mod node any more, no auxiliary constants are needed
+	if rs := ts.Mod(s, mt); rs.op != "mod" {
+		if qs := ts.Div(s, mt); qs.op != "div" {
+			if m.Cmp(bi(256)) == 0 {
+				ex.recordByte(rs, s)
+			}
+			return qs, rs
+		}
 	}
 	pow2m := m.TrailingZeroBits() == uint(m.BitLen()-1)
 	if pow2m && s.tz >= uint(m.BitLen()-1) {
@@ -502,6 +538,7 @@ func (ex *Exec) divmod(s *Term, m *big.Int) (*Term, *Term) {
 		ex.defOf[q.id] = eq
 	}
 	ex.defOf[r.id] = eq
+	ex.modSrc[r.id] = s
 	ex.dmCache[key] = [2]*Term{q, r}
 	return q, r
 }
